@@ -344,7 +344,15 @@ func (g *exGen) Gen(kind string, d int) *Ex {
 		case c < 60:
 			a, b := g.Gen("s", d-1), g.Gen("s", d-1)
 			if g.r.Chance(25) {
-				b = g.Gen(g.r.Pick([]string{"i", "b"}), d-1)
+				b = g.Gen(g.r.Pick([]string{"i", "b", "f"}), d-1)
+			}
+			if g.r.Chance(20) { // a variable of some numeric Go kind, printed as it is held
+				if n := g.nameOf(g.r.Pick([]string{"i", "i", "f"})); n != nil {
+					b = n
+				}
+			}
+			if g.r.Chance(30) {
+				a, b = b, a
 			}
 			return g.paren(&Ex{K: "bin", Op: "+", A: a, B: b})
 		default:
@@ -677,6 +685,15 @@ func RefEval(e *Ex, env *Env) (any, bool) {
 		b, ok := RefEval(e.B, env)
 		if !ok {
 			return nil, false
+		}
+		if e.Op == "+" {
+			// string + non-string concatenates what fmt prints for the operand AS IT IS HELD (float32(0.1) is "0.1",
+			// a uint64 above MaxInt64 stays positive), not its int64 / float64 normalisation
+			_, as := a.(string)
+			_, bs := b.(string)
+			if as != bs {
+				return fmtV(a) + fmtV(b), true
+			}
 		}
 		return refBin(e.Op, norm(a), norm(b))
 	}
